@@ -115,6 +115,11 @@ impl Runtime {
                 true
             }
         } else {
+            if line.to_string().len() > MAX_LINE_LEN {
+                // the listed line would not fit the line buffer: it could not be edited or loaded again
+                self.state = State::RuntimeError(error!(LineBufferOverflow));
+                return false;
+            }
             self.enter_indirect(line);
             false
         }
